@@ -26,6 +26,8 @@ def wf_clauses(S, result):
     arrays = [x for x in items if S.is_dimarray(x)]
     for i, a in enumerate(arrays):
         yield "result%s-well-formed" % ("" if len(arrays) == 1 else "-%d" % i), well_formed(S, a)
+        # "answers every further operation like a freshly constructed array": a fresh array accepts assignment
+        yield "result%s-accepts-assignment-like-a-fresh-array" % ("" if len(arrays) == 1 else "-%d" % i), S.writable(a.values)
 
 
 def _labels(S, rank, prefix=""):
